@@ -167,6 +167,14 @@ def run(ctx):
             res.find(key, to_i.loc(), "store Program.%s (type %s) transitively contains a hash-ordered or sorted container but its content is serialized in iteration order" % (fld["n"], db.ty_s(fld["t"])[:100]), "definitions of this kind serialize in an order that is not the definition order")
     res.count("listed_stores", nstores, floor=8)
 
+    # R2b: between a store and the listing output only order-preserving, loss-free adaptors (shared with C09)
+    for lst in (to_i, into_i):
+        for (callee, sp, flds) in c09.pipeline_violations(db, lst):
+            key = "K10|pipeline|%s|%s" % (lst.path, callee.rsplit("::", 1)[-1])
+            res.site(key, True)
+            res.find(key, lst.loc(sp), "%s passes store `%s` through `%s`, which can reorder or drop elements: serialized definitions no longer follow the order in which they were first added" % (lst.path, ".".join(flds), callee), "a `DECLARE ... SHARING ...` added before a plain DECLARE is serialized after it")
+        res.site("K10|pipeline|%s" % lst.path, True, {"fn": lst.path, "verdict": "order-preserving adaptors only"})
+
     # R3a: order-disturbing calls under add_instruction
     aparent = mono.reach(mono.roots([add_i.dp]))
     alocal = mono.local_dps(aparent)
